@@ -588,6 +588,27 @@ Proof.
     rewrite E4, E2, H1. reflexivity.
 Qed.
 
+(* a successful removal is a successful run of the relinking proper *)
+Lemma remove_dir_entry_ok_inv : forall parent nm s s' u,
+  remove_dir_entry parent nm s = (s', Ok u) -> remove_dir_entry_inner parent nm s = (s', Ok u).
+Proof.
+  intros parent nm s s' u H. unfold remove_dir_entry in H.
+  destruct (remove_dir_entry_inner parent nm s) as [s1 [u1| | |]]; try discriminate H. exact H.
+Qed.
+
+Lemma remove_dir_entry_ok : forall parent nm s s' u,
+  remove_dir_entry_inner parent nm s = (s', Ok u) -> remove_dir_entry parent nm s = (s', Ok u).
+Proof. intros parent nm s s' u H. unfold remove_dir_entry. rewrite H. reflexivity. Qed.
+
+(* a failed removal leaves the table in memory as it was *)
+Lemma remove_dir_entry_failed_dirs : forall parent nm s s' r,
+  remove_dir_entry parent nm s = (s', r) -> (forall u, r <> Ok u) -> dirs s' = dirs s.
+Proof.
+  intros parent nm s s' r H Hr. unfold remove_dir_entry in H.
+  destruct (remove_dir_entry_inner parent nm s) as [s1 [u1| | |]]; injection H as <- <-;
+    try reflexivity. exfalso. exact (Hr u1 eq_refl).
+Qed.
+
 Lemma remove_proj : forall parent nm s s' u,
   remove_dir_entry parent nm s = (s', Ok u) ->
   exists p path x e pp pred,
@@ -599,7 +620,7 @@ Lemma remove_proj : forall parent nm s s' u,
      find_pred (S (length (dirs s))) (dirs s) x (d_left e) = Ok (pp, pred)) /\
     dirs s' = remove_tbl (dirs s) parent (lastN (pop_last path)) x e pp pred.
 Proof.
-  intros parent nm s s' u H. unfold remove_dir_entry in H.
+  intros parent nm s s' u H. apply remove_dir_entry_ok_inv in H. unfold remove_dir_entry_inner in H.
   binv H p s1 H1 H2. apply dir_entry_inv in H1. destruct H1 as [-> Hp].
   binv H2 s0 s1 H1 H2. apply get_inv in H1. destruct H1 as [-> ->].
   binv H2 path s1 H1 H2. apply lift_inv in H1. destruct H1 as [-> Hrf].
